@@ -3,6 +3,7 @@
 -/
 import Fsel.Model.Json
 import Fsel.Model.Main
+import Fsel.Lemmas.Glob
 
 namespace Fsel
 
@@ -212,6 +213,19 @@ def handleLine (st : DriverState) (line : String) : DriverState × String :=
       else if name == "like" then
         match as with
         | [x] => (st, hexOfStr (likeToPattern x))
+        | _ => (st, "bad-op")
+      else if name == "globshape" then
+        -- model-internal test: does the regex parser turn the escaped pattern text into the atom chain
+        -- that the theorems of C12 talk about?
+        match as with
+        | [kind, x] =>
+          let atoms : List GlobL.Atom :=
+            if kind == ofS "glob" then x.map fun c => if c == '*' then .many else if c == '?' then .one else .lit c
+            else x.map fun c => if c == '%' then .many else if c == '_' then .one else .lit c
+          let pat := if kind == ofS "glob" then globToPattern x else likeToPattern x
+          (st, match rxParse pat with
+            | .ok re => if re == GlobL.anchored atoms then "same" else "different"
+            | _ => "noparse")
         | _ => (st, "bad-op")
       else if name == "rxmatch" then
         match as with
